@@ -1,4 +1,8 @@
-"""C02 - each simulated hour is driven by and written to its own rural row."""
+"""C02 - each simulated hour is driven by and written to its own rural row.
+
+Round 5 (harness/v1_util.py FloatLoop): window-length oracle - the real SimParam for all 45 divisors x every length
+1..365 days and end probes on the real float loop (the last hour of the window is stepped, forced by the last row and
+recorded) - window_length_family."""
 import contextlib
 import csv
 import datetime
@@ -711,6 +715,78 @@ def circumstance_runs(chk, thorough):
                mismatches=b3, branches=br3)
 
 
+def window_length_family(chk, thorough):
+    """Round 5: "every hour of the window including the last", for ALL 45 time steps x window lengths 1..365 days.
+    Expressions such as `int(24 * days / ph) + 1` or `int(round(timeMax / dt + 1))` are exact in rational arithmetic and
+    can be one off in doubles for particular (dt, days): the loop then stops one step short (the last hour is never
+    recorded) or runs one step over. (1) the real SimParam for every divisor x EVERY length 1..365 (random start that leaves
+    room): number of steps, first / last rural row of the window, rows per day; (2) end probes on the REAL loop
+    (harness/v1_util.py FloatLoop: real SimParam, physics stubbed): the loop body entered two steps before the end of the
+    window and left to finish by itself, for every divisor x the first / middle / last length of every binade of
+    24 days hours + random lengths (thorough: every length): the loop must end exactly at start + days, the step that ends
+    the window must be forced by the LAST rural row of the window (row 24 days - 1) and take a record, the record lists
+    must have 24 days slots."""
+    import v1_util as V
+    from uwg.simparam import SimParam
+    rng = chk.rng
+    bad, n1 = [], 0
+    for dt in DIVISORS:
+        for days in range(1, 366):
+            j0 = rng.randint(0, 365 - days)
+            M, D = V.date_of(j0)
+            try:
+                sp = SimParam(dt, 3600, M, D, days)
+                got = [sp.nt, sp.timeInitial, sp.timeFinal, sp.timeDay, sp.timeMax]
+            except Exception as e:  # noqa: BLE001
+                got = '%s: %s' % (type(e).__name__, str(e)[:80])
+            want = [days * 86400 // dt + 1, 8 + 24 * j0, 8 + 24 * j0 + 24 * days - 1, 24, 86400 * days]
+            n1 += 1
+            if got != want and len(bad) < 6:
+                bad.append({'dtsim': dt, 'month': M, 'day': D, 'nday': days, 'member': 'SimParam(dt, 3600, month, day, nday)',
+                            'observed': {'nt, timeInitial, timeFinal, timeDay, timeMax': got},
+                            'expected': {'nt, timeInitial, timeFinal, timeDay, timeMax': want}})
+    fl = V.FloatLoop(buildings=0)
+    tri = sorted(set(k + 1 for t in V.binade_offsets() for k in t) | {1, 365})
+    n2 = 0
+    for dt in DIVISORS:
+        spd = 86400 // dt
+        lens = list(range(1, 366)) if thorough else sorted(set(tri + rng.sample(range(1, 366), 5)))
+        for days in lens:
+            M, D = V.date_of(rng.randint(0, 365 - days))
+            n2 += 1
+            b = fl.run(dt, M, D, days, first=max(1, days * spd - 2))
+            if b is not None:
+                b['member'] = 'end probe'
+                bad.append(b)
+    bad.sort(key=lambda b: (0 if b['member'] != 'end probe' else 1, b['nday'] * 86400 // b['dtsim']))
+    shown = 0
+    for b in bad:
+        if shown >= 3:
+            break
+        if b['member'] == 'end probe' and b['nday'] * 86400 // b['dtsim'] <= 1500000:
+            full = fl.run(b['dtsim'], b['month'], b['day'], b['nday'])          # the complete run of the same parameters
+            if full is not None:
+                full['member'] = 'end probe, confirmed by the complete run of the same parameters'
+                b = full
+        shown += 1
+        chk.violation('impl-violation', 'every hour of the window including the last: steps, rows and records of a window of '
+                      'nday days at time step dtsim',
+                      case={k: b[k] for k in ('dtsim', 'month', 'day', 'nday', 'step', 'member', 'probe') if k in b},
+                      observed=b['observed'], expected=b['expected'],
+                      how='SimParam(dtsim, 3600, month, day, nday) / harness/v1_util.py FloatLoop().run(dtsim, month, day, nday'
+                          '[, first]): the real UWG.simulate with a real SimParam and the physics stubbed')
+    chk.direct('window-length oracle(45 divisors x 1..365 days: steps, last row, last record)', n1 + n2, n1 + n2,
+               'for every divisor of 3600 and EVERY window length 1..365 days (random start that leaves room) the real '
+               'SimParam: nt = days * 86400 / dt + 1, timeInitial / timeFinal = first / last row of the window, 24 rows per '
+               'day; and end probes on the REAL float loop (real SimParam, physics stubbed, entered two steps before the end '
+               'of the window with the state the calendar predicts, left to finish by itself) for every divisor x the first / '
+               'middle / last length of every binade of 24 x days hours, 1 and 365 days and 5 random lengths (thorough: every '
+               'length): the loop ends exactly at start + days, every step executed is forced by the row of its own hour (the '
+               'last by row 24 days - 1), the hour that ends the window is recorded, the record lists have 24 days slots '
+               '(%d probes); a failing probe is re-run as the complete run' % n2,
+               mismatches=len(bad), branches={'SimParam': n1, 'end probes': n2})
+
+
 def stamp_dt(k):
     """EPW hour-ending stamp of data row k from datetime: the row describes the hour beginning k hours
     after 1 Jan 00:00; month/day of that instant, hour number 1..24."""
@@ -896,6 +972,7 @@ def run(chk):
                mismatches=len(wbad), branches={'runs': len(reals)})
     boundary_runs(chk, thorough)
     circumstance_runs(chk, thorough)
+    window_length_family(chk, thorough)
     # the doubles named in theorem asis_float_rowidx_wrong are the ones CPython computes
     import math
     ph = 48 / 3600.
